@@ -530,16 +530,54 @@ fn part_identifiers(max: usize) -> Stats {
     })
 }
 
+/// (g) code points: every character of the Basic Latin .. CJK-symbol range (0..=0x3000), the boundaries of
+/// the UTF-8 encoding lengths and of the planes, in the positions a character can take: alone, as (part of)
+/// an identifier that is assigned and read, next to operators, inside a string literal and inside a comment.
+fn part_code_points(thorough: bool) -> Stats {
+    let mut cps: Vec<u32> = (0..=0x3000).collect();
+    for b in [0xd7ffu32, 0xe000, 0xfeff, 0xfffd, 0xffff, 0x10000, 0x1f600, 0x2fffe, 0xe0001, 0x10fffd, 0x10ffff] {
+        cps.push(b);
+    }
+    if thorough {
+        cps.extend(0x3001..=0xffff);
+        cps.extend((0x10000..=0x10ffff).step_by(0x101));
+    }
+    let chars: Vec<char> = cps.into_iter().filter_map(char::from_u32).collect();
+    let chunks: Vec<Vec<char>> = chars.chunks(256).map(|c| c.to_vec()).collect();
+    par_items(&chunks, |_, chunk| {
+        let cx = contexts();
+        let mut st = Stats::new();
+        for c in chunk {
+            for src in [
+                format!("{c}"),
+                format!("a{c}b"),
+                format!("{c} = 3; {c} + 1"),
+                format!("1 + {c}"),
+                format!("{c}(1)"),
+                format!("\"{c}\""),
+                format!("/*{c}*/1"),
+                format!("1{c}2"),
+            ] {
+                check_source(&src, &cx, false, &mut st);
+                st.states += 1;
+                st.count("g/code-point-sources");
+            }
+        }
+        st
+    })
+}
+
 pub fn run(cfg: &Cfg) -> Report {
     let t = cfg.tier;
     let mut stats = Stats::new();
+    stats.merge(part_code_points(t == Tier::Thorough));
     stats.merge(part_tokens(t.pick(4, 6), t.pick(3, 4)));
     stats.merge(part_chars(t.pick(3, 5)));
     stats.merge(part_identifiers(t.pick(3, 4)));
     stats.merge(part_builtins(t));
     stats.merge(part_operators());
     stats.merge(part_pumped());
-    stats.add("nontrivial-distinct", stats.get("a/token-sequences") + stats.get("b/char-strings") + stats.get("f/identifier-shape-sources"));
+    stats.add("nontrivial-distinct", stats.get("a/token-sequences") + stats.get("b/char-strings") + stats.get("f/identifier-shape-sources") + stats.get("g/code-point-sources"));
     stats.sample(json!({"part": "a", "source": "( a += \"s\" , ! f"}));
     stats.sample(json!({"part": "b", "source": "1e-\n"}));
     stats.sample(json!({"part": "c", "call": "shl(x)", "x": RV::Tuple(vec![RV::Int(1), RV::Int(64)]).to_json()}));
@@ -552,7 +590,7 @@ pub fn run(cfg: &Cfg) -> Report {
     Report {
         property: ID,
         level: "model_checking",
-        rule: format!("(a) depth-first search over every token sequence of length <= {} over a 20-token alphabet (incl. dangling `&`, `|`), a state is a token prefix; (b) every character string of length <= {} over a 27-character alphabet (digits, e, x, dot, quote, backslash, comment and operator characters, whitespace, multi-byte characters); (c) 49 builtins x the C10 argument matrix, with the argument bound and literal-rendered; (d) every operator, op-assign, prefix operator and sequence x pool^2; (e) {} pumped families x lengths {:?} in child processes; (f) identifier shapes: every word of length <= {} over `a : _ . # 0` and two multi-byte characters, namespace fragments (`math::`, `str:` ...) and hexadecimal words of 15..200 digits, each in 11 syntactic positions (read, call forms, assignment targets, operand, group). Every input: tokenize, precompile, Display/Debug/clone/iterators of the tree, evaluation in 12 contexts (HashMapContext empty / identifiers bound to each type incl. extremes / total, failing and shadowing user functions / builtins off; EmptyContext; EmptyContextWithBuiltinFunctions) through shared and mutable forms, string-level forms, all typed wrappers on the shorter inputs, Display/Debug of every value and error. Both build profiles (overflow checks on, off). Non-trivial: every token sequence and character string (each enumerated once)", t.pick(4, 6), t.pick(3, 5), families().len(), PUMP_LENGTHS, t.pick(3, 4)),
+        rule: format!("(a) depth-first search over every token sequence of length <= {} over a 20-token alphabet (incl. dangling `&`, `|`), a state is a token prefix; (b) every character string of length <= {} over a 27-character alphabet (digits, e, x, dot, quote, backslash, comment and operator characters, whitespace, multi-byte characters); (c) 49 builtins x the C10 argument matrix, with the argument bound and literal-rendered; (d) every operator, op-assign, prefix operator and sequence x pool^2; (e) {} pumped families x lengths {:?} in child processes; (f) identifier shapes: every word of length <= {} over `a : _ . # 0` and two multi-byte characters, namespace fragments (`math::`, `str:` ...) and hexadecimal words of 15..200 digits, each in 11 syntactic positions (read, call forms, assignment targets, operand, group); (g) code points: every character in 0..=0x3000 and the encoding-length and plane boundaries (thorough: the whole BMP and a stride through the other planes) alone, inside an identifier, assigned and read, next to an operator, called, inside a string literal, inside a comment and between digits. Every input: tokenize, precompile, Display/Debug/clone/iterators of the tree, evaluation in 12 contexts (HashMapContext empty / identifiers bound to each type incl. extremes / total, failing and shadowing user functions / builtins off; EmptyContext; EmptyContextWithBuiltinFunctions) through shared and mutable forms, string-level forms, all typed wrappers on the shorter inputs, Display/Debug of every value and error. Both build profiles (overflow checks on, off). Non-trivial: every token sequence and character string (each enumerated once)", t.pick(4, 6), t.pick(3, 5), families().len(), PUMP_LENGTHS, t.pick(3, 4)),
         nontrivial_set: "counter:nontrivial-distinct",
         exhaustive: true,
         bound_completed: format!("token sequences {}, character strings {}, pumped inputs to 4096 characters", t.pick(4, 6), t.pick(3, 5)),
